@@ -44,11 +44,15 @@ _G = {}
 
 def G(repo_needed=False):
     """per-process cache: pool, wires, programs"""
-    if not _G:
+    if "pool" not in _G:
         pool = P.build_pool()
         _G["pool"] = pool
         _G["vals"] = [v for _c, v in pool]
         _G["wires"] = [enc(v) for _c, v in pool]
+        _G["jwires"] = [json.dumps(w) for w in _G["wires"]]
+        cats = sorted({c for c, _v in pool})
+        _G["catnames"] = cats
+        _G["catidx"] = [cats.index(c) for c, _v in pool]
     return _G
 
 
@@ -168,10 +172,11 @@ def judge_evalc(acc, r, prog, inputs, profile, what, take, stream=(), mem=(4, 51
         return st
     for ch in r["codes"]:
         acc.codes[ch or "?"] += 1
+    get = inputs if callable(inputs) else (lambda j: inputs[j])
     for idx, (msg, loc) in r["panics"].items():
-        acc.panic(msg, loc, dict(base, input=inputs[idx]), what)
+        acc.panic(msg, loc, dict(base, input=get(idx)), what)
     for idx, (cls, detail) in r["deaths"].items():
-        acc.death(cls, detail, dict(base, input=inputs[idx]), what)
+        acc.death(cls, detail, dict(base, input=get(idx)), what)
     return st
 
 
@@ -203,25 +208,28 @@ def task_nat(t):
         ok = [i for i, (c, _v) in enumerate(g["pool"]) if c != "slow"]
         tuples = itertools.chain(tuples, (tuple(rng.choice(ok) for _ in range(slots + 1)) for _ in range(rand_n)))
     tame = p.tame
-    cases = []
-    idxs = []
-    tamed = 0
-    for tp in tuples:
-        if tame is not None and not tame([vals[i] for i in tp]):
-            tamed += 1
-            continue
-        cases.append([wires[i] for i in tp])
-        idxs.append(tp)
-    acc.extra["tamed"] += tamed
-    if not cases:
+    jw = g["jwires"]
+    if tame is not None:
+        n0 = 0
+        idxs = []
+        for tp in tuples:
+            n0 += 1
+            if tame([vals[i] for i in tp]):
+                idxs.append(tp)
+        acc.extra["tamed"] += n0 - len(idxs)
+    else:
+        idxs = list(tuples)
+    if not idxs:
         return acc.pack()
+    cases = [str(list(tp)) for tp in idxs]       # index tuples into the pool, which is sent once per request
     prog = p.text()
     c = mon(profile)
     max_s = 20 + len(cases) / 1000.0
     t0 = time.time()
-    r = c.evalc(prog, cases, take=4, stream=[None, {"i": "1"}], chunk=64, timeout=timeout, death_budget=6, max_seconds=max_s)
+    r = c.evalc(prog, cases, take=4, stream=[None, {"i": "1"}], chunk=64, timeout=timeout, death_budget=6, max_seconds=max_s, raw=True, pool=wires)
     dt = time.time() - t0
-    st = judge_evalc(acc, r, prog, cases, profile, f"native {label}: {prog}", 4, stream=[None, {"i": "1"}])
+    wire_of = lambda j: [wires[i] for i in idxs[j]]
+    st = judge_evalc(acc, r, prog, wire_of, profile, f"native {label}: {prog}", 4, stream=[None, {"i": "1"}])
     if st == "compile_error":
         acc.notes.append(f"program for {label} does not compile: {prog}: {(r['report'].get('report') or '')[:120]}")
         return acc.pack()
@@ -232,9 +240,11 @@ def task_nat(t):
         acc.notes.append(f"{label}: {nskip} of {len(cases)} cases not run ({'time guard' if r.get('time_guard') else 'death budget'})")
     if any(ch in "ecxh" for ch in r["codes"] if ch):
         acc.covered.add(f"{p.name}/{p.arity}" if p.kind != "op" else p.label)
-    g_pool = g["pool"]
-    for tp, ch in zip(idxs, r["codes"]):
-        acc.distinct.add(f"n:{label}:{'/'.join(g_pool[i][0] for i in tp)}:{ch}")
+    ci = g["catidx"]
+    cn = g["catnames"]
+    classes = {(tuple([ci[i] for i in tp]), ch) for tp, ch in zip(idxs, r["codes"])}
+    for cs, ch in classes:
+        acc.distinct.add(f"n:{label}:{'/'.join(cn[k] for k in cs)}:{ch}")
     if dt > 8:
         acc.slow.append((label, round(dt, 1), len(cases)))
     # a few finished cases as candidates for the CLI slice
@@ -242,7 +252,7 @@ def task_nat(t):
     for _ in range(3):
         j = rng2.randrange(len(cases))
         if r["codes"][j] in ("e", "c", "x"):
-            acc.cli_candidates.append((prog, cases[j]))
+            acc.cli_candidates.append((prog, wire_of(j)))
     j = rng2.randrange(len(cases))
     acc.samples.append({"workload": "natives", "program": prog, "tuple": [show(vals[i], 60) for i in idxs[j]], "outcome": r["codes"][j]})
     return acc.pack()
@@ -546,6 +556,50 @@ def task_wr(t):
 
 
 # ---------------------------------------------------------------------------------------------
+# sort stress: the order on numbers is handed to std's sorts, which panic when they notice that a
+# comparison is not a total order; noticing depends on the permutation, so many random arrays are tried
+
+SORT_PROGS = ["sort", "sort_by(.)", "sort_by(.[0])", "group_by(.)", "unique", "unique_by(.)", "min_by(.), max_by(.)", "[.[] | [.]] | sort", "sort_by(-.)?",
+              "[.[] | {a: .}] | sort_by(.a)", "[.[] | {a: .}] | sort", ". - [.[0]] | length", "[.[] | tojson] | sort | length", "sort | bsearch(.[0])",
+              "to_entries | sort_by(.value) | length", "[.[] | {(tojson): 1}] | add | keys | length", "sort_by(., 1)", "group_by(. , .) | length"]
+
+
+def task_sort(t):
+    _k, profile, idx, n, seed = t
+    rng = random.Random(f"c05/{seed}/sort/{idx}")
+    acc = Acc("sort-stress")
+    c = mon(profile)
+    nan = float("nan")
+    families = [
+        [2 ** 53, 2 ** 53 + 1, float(2 ** 53), 2 ** 53 + 2, 2 ** 53 - 1, Dec("9007199254740993.0"), Dec("9007199254740992.5"), Big(2 ** 53), float(2 ** 53) + 2],
+        [2 ** 63, float(2 ** 63), 2 ** 63 - 1, 2 ** 63 + 1, 2 ** 64, float(2 ** 64), Dec("1e19"), 2 ** 63 - 2, -(2 ** 63), -float(2 ** 63), -(2 ** 63) - 1],
+        [nan, 1, 2, 0.5, -1, float("inf"), float("-inf"), Dec("1.0"), 1.0],
+        [nan, None, True, S("a"), Str(b"a", False), [nan], 1, 1.0, Dec("1.00"), Obj([(S("a"), nan)]), Obj([(nan, 1)])],
+        [0, -0.0, 0.0, Dec("-0.0"), Dec("0e0"), Big(0), 5e-324, -5e-324],
+        [Dec("1e1000"), Dec("-1e1000"), float("inf"), 2 ** 1030, -(2 ** 1030), 1.7976931348623157e308, Dec("1.8e308"), 2 ** 1024, Big(2 ** 1023)],
+        [10 ** 17, 10 ** 17 + 1, 1e17, Dec("100000000000000001.0"), 10 ** 17 - 1, float(10 ** 17 + 16)],
+    ]
+    arrays = []
+    for _ in range(n):
+        fam = rng.choice(families)
+        if rng.random() < 0.3:
+            fam = fam + rng.choice(families)
+        arrays.append([rng.choice(fam) for _ in range(rng.choice([8, 21, 22, 33, 50, 64, 65, 100, 130, 200, 300]))])
+    wires = [enc(a) for a in arrays]
+    for prog in SORT_PROGS:
+        r = c.evalc(prog, wires, take=4, chunk=32, timeout=8.0, death_budget=6)
+        st = judge_evalc(acc, r, prog, wires, profile, f"sort stress `{prog}`", 4)
+        if st == "ok":
+            acc.cases += len(wires)
+            for ch in set(r["codes"]):
+                acc.distinct.add(f"s:{prog}:{ch}")
+        else:
+            acc.notes.append(f"sort program {prog}: {st}")
+    acc.samples.append({"workload": "sort-stress", "program": SORT_PROGS[idx % len(SORT_PROGS)], "array": show(arrays[0], 200)})
+    return acc.pack()
+
+
+# ---------------------------------------------------------------------------------------------
 # CLI slice
 
 def task_cli(t):
@@ -647,6 +701,8 @@ def task_(t):
         return task_wr(t)
     if k == "cli":
         return task_cli(t)
+    if k == "sort":
+        return task_sort(t)
     raise ValueError(k)
 
 
@@ -824,6 +880,8 @@ def main():
     nwr = run.size(8, 100)
     for i in range(nwr):
         tasks.append(("wr", "verif", i, 250, run.seed))
+    for i in range(run.size(16, 200)):
+        tasks.append(("sort", "verif", i, 120, run.seed))
     # release slice: the same generators (same seeds => same cases) in the profile users run
     rrng = run.rng("release-slice")
     rel = []
@@ -845,7 +903,7 @@ def main():
     # big tasks first, so that the tail is short
     tasks = tasks + rel
     rng.shuffle(tasks)
-    tasks.sort(key=lambda t: 0 if t[0] in ("filt", "doc", "wr") else 1)
+    tasks.sort(key=lambda t: 0 if t[0] in ("filt", "doc", "wr", "sort") else 1)
     tasks = cli_tasks + tasks
 
     by_wl = collections.Counter()
